@@ -19,6 +19,19 @@ class _Mon:
         return f"{value}"
 
 
+class _Pot:
+    """scripted potentiometer: read() returns the successive run-time values (the last one repeats)"""
+
+    def __init__(self, values):
+        self.values = list(values) or [0]
+        self.k = 0
+
+    def read(self):
+        v = self.values[min(self.k, len(self.values) - 1)]
+        self.k += 1
+        return v
+
+
 def live_data(ns):
     seen, total = set(), 0
     for k, v in ns.items():
@@ -47,6 +60,8 @@ def run_job(job):
         return {"head_exc": type(e).__name__, "phases": []}
     mon = _Mon()
     ns["mon"] = mon
+    if job.get("gvals") is not None:
+        ns["p"] = _Pot(job["gvals"])
     codes = [compile("\n".join(job["setup"]) + "\n", "<setup>", "exec")]
     body = compile("\n".join(job["body"]) + "\n", "<body>", "exec")
     codes += [body] * int(job["N"])
